@@ -545,9 +545,9 @@ def gen_cases(ctx):
     rng = ctx.rng
     thorough = ctx.tier == "thorough"
     cases = []
-    per = 22 if not thorough else 110
+    per = 14 if not thorough else 110
     for s in CONV_SEARCHES:
-        for _ in range(per + (10 if s in ("emcee", "from_lists") else 0)):
+        for _ in range(per + (6 if s in ("emcee", "from_lists") else 0)):
             cases.append(gen_conv(rng, s))
     e2e = []
     if not thorough:
@@ -610,11 +610,15 @@ def run(ctx):
             conv, e2e = ([rp["case"]], []) if rp["case"]["kind"] == "conv" else ([], [rp["case"]])
     for i, c in enumerate(conv + e2e):
         c["idx"] = i
+    # few, fat driver processes: importing autofit costs ~3 s of CPU per process
     payloads = []
-    chunk = max(1, (len(conv) + common.NCPU - 1) // common.NCPU)
+    nproc = 8 if ctx.tier != "thorough" else 12
+    chunk = max(1, (len(conv) + nproc - 1) // nproc)
     for i in range(0, len(conv), chunk):
         payloads.append({"cases": conv[i:i + chunk]})
-    payloads += [{"cases": [c]} for c in e2e]
+    group = 3 if ctx.tier != "thorough" else 6
+    for i in range(0, len(e2e), group):
+        payloads.append({"cases": e2e[i:i + group]})
     t0 = time.time()
     outs = common.run_impl_parallel("c05_impl", payloads, timeout=1200)
     ctx.notes["t_impl_s"] = round(time.time() - t0, 1)
@@ -680,7 +684,7 @@ def run(ctx):
     if os.path.exists(os.path.join(common.COQ, "C05", "Model.vo")):
         hdr = ctx.header(["Common.PyFloat", "Common.Lists", "Model"])
         t0 = time.time()
-        bad, log = ctx.eval_cases(hdr, "case", "check_case", coq_cases, shard=12)
+        bad, log = ctx.eval_cases(hdr, "case", "check_case", coq_cases, shard=24)
         ctx.notes["t_coq_cases_s"] = round(time.time() - t0, 1)
         for b in (bad or [])[:5]:
             i = coq_idx[b]
